@@ -360,7 +360,7 @@ def check_sites(ctx, rule, sites, audit_scope, entry_desc, cg=None, entries=None
                 ctx.violation(rule, fn, inst.strip() + (" #%d" % (i - allowed + 1) if i - allowed > 0 else ""),
                               what + "; reachable from " + entry_desc, site=s.site, **extra)
     for a in audit:
-        if used[id(a)] == 0 and not any(k == (a["fn"], a["kind"], a.get("callee", ""), a.get("receiver", "")) for k in by_key):
+        if len(a.get("scopes", [])) == 1 and used[id(a)] == 0 and not any(k == (a["fn"], a["kind"], a.get("callee", ""), a.get("receiver", "")) for k in by_key):
             ctx.note("stale audit entry (site no longer exists): %s %s %s %s" % (a["fn"], a["kind"], a.get("callee", ""), a.get("receiver", "")))
     ctx.stats[rule + "/sites"] = len(sites)
     ctx.stats[rule + "/discharged"] = n_discharged
@@ -652,7 +652,8 @@ def _trivial_preds(body, bb, live):
                 continue
             seen.add((p, b))
             pt = body.blocks[p]["t"]
-            if pt["k"] in ("goto", "falseedge") and not [s for s in body.blocks[p]["s"] if "lhs" in s]:
+            fmt_prep = pt["k"] == "call" and re.search(r"^(std|core)::fmt::(Arguments|rt::)", callee_path(pt))
+            if (pt["k"] in ("goto", "falseedge") and not [s for s in body.blocks[p]["s"] if "lhs" in s]) or fmt_prep:
                 work.append(p)
             else:
                 out.append((p, b))
@@ -759,7 +760,21 @@ def discharge_full_range(site):
     return None
 
 
-DISCHARGERS.extend([discharge_is_some_guard, discharge_full_range])
+def discharge_const_divisor(site):
+    """DivisionByZero / RemainderByZero whose condition is `Eq(const K, const 0)` with K != 0"""
+    if site.kind not in ("assert:DivisionByZero", "assert:RemainderByZero"):
+        return None
+    body = site.body
+    l = op_local(site.term["cond"])
+    d = single_def(body, l) if l is not None else None
+    if d and d[2] == "assign" and d[3]["rv"]["k"] == "bin" and d[3]["rv"]["op"] == "Eq":
+        ka, kb = op_const(d[3]["rv"]["a"]), op_const(d[3]["rv"]["b"])
+        if ka is not None and kb is not None and kb.get("v") == 0 and ka.get("v") not in (None, 0):
+            return "const-divisor: divisor is the constant %d" % ka["v"]
+    return None
+
+
+DISCHARGERS.extend([discharge_is_some_guard, discharge_full_range, discharge_const_divisor])
 
 
 def panic_scope(ctx, rule, crate, entry_regexes, scope, desc, extra=()):
